@@ -142,18 +142,32 @@ def keepRecord (isNull : α → Bool) (how : How) (thresh : Option Nat) (cells :
     | .any => nn = cells.length
     | .all => nn > 0 ∨ cells.length = 0
 
+/-- the flat column a `subset` entry names -/
+def dropnaCol (flat : FlatDF α) (f : String) : R (String × String × List α) :=
+  match flat.cols.find? (·.1 == f) with
+  | some c => pure c
+  | none => .error .keyError
+
+/-- the inspected columns: all of them, or the `subset` -/
+def dropnaCols (flat : FlatDF α) (subset : Option (List String)) : R (List (String × String × List α)) :=
+  match subset with
+  | none => pure flat.cols
+  | some fs => fs.mapM (dropnaCol flat)
+
+/-- the cells of record `j` in the inspected columns -/
+def recordCells (cols : List (String × String × List α)) (j : Nat) : List α := cols.filterMap fun c => c.2.2[j]?
+
+/-- which records stay -/
+def dropnaKeep (isNull : α → Bool) (how : How) (thresh : Option Nat) (cols : List (String × String × List α)) (n : Nat) :
+    List Bool :=
+  (List.range n).map fun j => keepRecord isNull how thresh (recordCells cols j)
+
 /-- `NestedFrame.dropna` aimed at a nested layer (core.py:706-760). -/
 def NFrame.dropnaNested (isNull : α → Bool) (F : NFrame α) (nest : String) (how : How) (thresh : Option Nat)
     (subset : Option (List String)) : R (NFrame α) := do
   let flat ← F.ordinalFlat nest
-  let cols ← (match subset with
-    | none => pure flat.cols
-    | some fs => fs.mapM fun f => match flat.cols.find? (·.1 == f) with
-      | some c => pure c
-      | none => .error .keyError : R _)
-  let keep := (List.range flat.len).map fun j =>
-    keepRecord isNull how thresh (cols.filterMap fun (_, _, v) => v[j]?)
-  F.setFilteredFlatDf nest (flat.filterRows keep)
+  let cols ← dropnaCols flat subset
+  F.setFilteredFlatDf nest (flat.filterRows (dropnaKeep isNull how thresh cols flat.len))
 
 /-- lexicographic comparison used by `sort_values(by=[ordinal] ++ keys)`: `lt a b` per key with
     its direction; nulls placed by `naFirst` independently of the direction -/
